@@ -3,11 +3,12 @@
    model returns the new state together with what was raised, so atomicity
    is a statement and not an artefact of the model's type.  Order-freeness is
    proved for the Cp table (acceptance and result) and the valid range;
-   PARTIAL: for the reference values H, S (compared with a relative tolerance,
-   re-evaluated through the merged table) and for whole include trees it is
-   decided by the tree oracle and the correspondence of this check. *)
+   for the reference enthalpy under a shared reference temperature the merged
+   value is characterised (C13_update_H_same_Tref).  PARTIAL: the entropy
+   analogue and whole include trees are decided by the tree oracle and the
+   correspondence of this check. *)
 From Coq Require Import List NArith Bool Reals Lra.
-From PG Require Import Common.Strs Thermo.Num Thermo.RawData Thermo.Merge Thermo.Merge_proofs.
+From PG Require Import Common.Strs Thermo.Num Thermo.RawData Thermo.RawData_proofs Thermo.Merge Thermo.Merge_proofs.
 Import ListNotations.
 Local Open Scope R_scope.
 
@@ -83,6 +84,22 @@ Theorem C13_range_order_free : forall a x y : option (R * R),
   range_union (K:=Rops) (range_union (K:=Rops) a x) y = range_union (K:=Rops) (range_union (K:=Rops) a y) x.
 Proof. exact range_union_order_free. Qed.
 Print Assumptions C13_range_order_free.
+
+(* the merged reference enthalpy when the files share one reference temperature
+   (the property's quantifier): the other file's value where it gives one - and
+   then it has passed the tolerance comparison with the value already there -,
+   the value already there otherwise.  Hence the value that results from two
+   files is one of the values given, and any two given values were compared. *)
+Theorem C13_update_H_same_Tref : forall splint quadS isclose,
+  (forall a, splint a a = 0) ->
+  forall self other new,
+  corr_update (K:=Rops) splint quadS lnrR isclose self other false = (new, None) ->
+  i_Tref other = i_Tref self ->
+  (forall pts rg H S T c, construct (K:=Rops) pts rg H S T = Ok c -> 0 < r_lo c) ->
+  i_H new = match i_H other with Some h => Some h | None => i_H self end
+  /\ (forall h h0, i_H other = Some h -> i_H self = Some h0 -> isclose h h0 = true).
+Proof. intros splint quadS isclose Hs. exact (update_H_same_Tref splint quadS isclose Hs). Qed.
+Print Assumptions C13_update_H_same_Tref.
 
 (* one file naming a group twice (two spellings canonicalise to one name, C19)
    is rejected; distinct names are all accepted *)
